@@ -56,7 +56,7 @@ Frame(kind, e) == [kind |-> kind, e |-> e, ph |-> 0, i |-> 0, acc |-> <<>>, pt0 
 MInit(C) ==
   LET x1 == Advance(C, X0, 0, "") IN          \* the first read(), outside any rule
   [stk |-> <<Frame("rule", C.entry)>>, mode |-> "eval", res |-> [ok |-> FALSE, val |-> Nil],
-   pt |-> Pt0(C.inp), curpos |-> <<0, 0, 0>>, curtext |-> <<>>, store |-> Store0, g |-> 0,
+   pt |-> Pt0(C.inp), curpos |-> <<0, 0, 0>>, curtext |-> <<>>, store |-> XInit(C).store, g |-> XInit(C).g,
    vst |-> <<>>, rst |-> <<>>, errs |-> x1.errs, log |-> <<>>, fmax |-> 0, fset |-> {}, finv |-> FALSE,
    memo |-> {}, cnt |-> 3, ab |-> "none", lbl |-> <<"-", "", 0, 0, 0>>, chk |-> "ok"]
 
